@@ -56,6 +56,12 @@ PROBLEMS = [
     # function sampling set handing out f_k(t) = t + x_k; x is the value f(2) - 2
     ('rfn', 'FormulaGrader', 'f(2)+1', [], lambda x, y: x + 3.0, 'scalar', None, 1.0),
     ('rfn2', 'FormulaGrader', 'f(2)*f(2)', [], lambda x, y: (x + 2.0) ** 2, 'scalar', None, 1.0),
+    # magnitudes whose squares leave the floating-point range
+    ('huge', 'FormulaGrader', 'x*1e160', ['x'], lambda x, y: x * 1e160, 'scalar', None, 1.0),
+    ('tiny', 'FormulaGrader', 'x*1e-170', ['x'], lambda x, y: x * 1e-170, 'scalar', None, 1.0),
+    ('chuge', 'FormulaGrader', 'x*1e160*(1+i)', ['x'], lambda x, y: x * 1e160 * (1 + 1j), 'complex', None, 1.0),
+    ('numhuge', 'NumericalGrader', '2.5e200', [], lambda x, y: 2.5e200, 'scalar', None, 1.0),
+    ('numtiny', 'NumericalGrader', '4e-200', [], lambda x, y: 4e-200, 'scalar', None, 1.0),
     ('num', 'NumericalGrader', '3.5*2', [], lambda x, y: 7.0, 'scalar', None, 1.0),
     ('numc', 'NumericalGrader', '2+3*i', [], lambda x, y: 2 + 3j, 'complex', None, 1.0),
 ]
@@ -266,6 +272,10 @@ class Run(object):
                     scale = 1.0 / nA                   # |diff| = |eps| * ||A||
                 if nA == 0:
                     self.bump(self.probes, 'expected value exactly zero')
+                if 0 < thr < 1e-9 * nA:
+                    # a deviation of the size of this threshold is lost in floating-point rounding
+                    # next to a value of this magnitude: only schedule what survives it
+                    cat = {'in': 'zero', 'edge_in': 'zero', 'edge_out': 'out'}.get(cat, cat)
                 if thr == 0:
                     if cat in ('zero', 'in', 'edge_in'):
                         mag, isbad = 0.0, False
